@@ -298,9 +298,9 @@ def register_subtree(R):
         return sym_tree(S, name, frozen=True, extra_cols=(EXTRA6,))
 
     def wf_clause(which, tname="swc_like"):
-        """well-formed input tree (a PRECONDITION: proved at every modular call site)"""
+        """well-formed input tree (a PRECONDITION: proved at every modular call site); tname: parameter name or getter(vars)"""
         def f(E, v, o):
-            t = v[tname]
+            t = tname(v) if callable(tname) else v[tname]
             n = nof(t)
             i = z3.Int(fresh_name("i"))
             idc, pid = col(t, "id").arr, col(t, "pid").arr
@@ -427,12 +427,19 @@ def register_subtree(R):
                 "used modularly by cut_tree / CutByType / CutShortTipBranch (ghost outputs: mapping, its inverse, the removal closure)")
 
     # ------------------------------------------------------------------ get_subtree_impl (traverse client rule)
-    def gs_setup(S):
-        t = wf_tree(S)
-        r = S.int("start")
-        S.assume(z3.And(r.z >= 0, r.z < nof(t)))
-        G = Obj(GhostList, dict(at=SArr(z3.K(I, z3.IntVal(-1)), nof(t), "int", name="at")))  # ghost: at[x] = position of node x in `ids`
-        return dict(swc_like=t, n=r, out_mapping=None, G6=G)
+    def gs_setup(kind):
+        def f(S):
+            t = raw_tree(S)
+            r = S.int("start")
+            G = Obj(GhostList, dict(at=SArr(z3.K(I, z3.IntVal(-1)), nof(t), "int", name="at")))  # ghost: at[x] = position of node x in `ids`
+            out = None if kind == "none" else PList([7, 8])
+            return dict(swc_like=t, n=r, out_mapping=out, G6=G)
+
+        return f
+
+    def gs_start_in_range(E, v, o):
+        r = to_z3(v["n"], "int")
+        return z3.And(r >= 0, r < nof(v["swc_like"]))
 
     def gs_J(E, v, ENT, LEFT, ctx):
         """`ids` lists exactly the entered nodes, each once (ghost inverse at), the start node first and every other node after its parent"""
@@ -462,51 +469,148 @@ def register_subtree(R):
         E.assume(z3.ForAll([a], PPOS(a) == sel(at, sel(P, sel(A, a)))))
         return True
 
+    def gs_result(S, fr):
+        """shape of get_subtree_impl's result at call sites: (m, fresh columns of length m, source, names) with the ghost outputs
+        (new-to-old mapping, the descendant predicate Sub) attached to the column dict"""
+        t = fr.vars["swc_like"]
+        m = S.int("m")
+        S.assume(m.z >= 0)
+        nd = PDict({c: SArr.fresh(a.kind, m.z, name="sub_" + c) for c, a in all_cols(t).items()})
+        nd.ghost6 = dict(mapping=SArr.fresh("int", m.z, name="mapping"), Sub=z3.Function(fresh_name("Sub"), I, z3.BoolSort()))
+        return (m, nd, t.fields["source"], t.fields["names"])
+
+    def gs_ghost(E, ndata):
+        g = getattr(ndata, "ghost6", None)
+        if g is not None:
+            return g["mapping"], g["Sub"]
+        c = topo_call(E)
+        Sub = E.ghost.get("last-traverse-Sub")
+        if c is None or Sub is None:
+            return None
+        return c["__result__"][1], Sub
+
+    def gs_clause(E, which, tup, t, start, gh, out_mapping=None):
+        """clauses of `tup = constructor arguments of the subtree of t at start` (shared by get_subtree_impl and its wrappers)"""
+        if gh is None:
+            return False
+        mapping, Sub = gh
+        n_nodes, ndata, source, names = tup
+        n, m, root = nof(t), mapping.nz(), to_z3(start, "int")
+        P = col(t, "pid").arr
+        k, x, j = z3.Int(fresh_name("k")), z3.Int(fresh_name("x")), z3.Int(fresh_name("j"))
+        Rg = lambda q: z3.And(q >= 0, q < n)
+        if which == "descendants-are-the-start-node-and-every-node-whose-parent-is-a-descendant":
+            return z3.And(Sub(root), z3.ForAll([x], z3.Implies(Sub(x), z3.And(Rg(x), z3.Implies(x != root, z3.And(sel(P, x) >= 0, Sub(sel(P, x))))))),
+                          z3.ForAll([x], z3.Implies(z3.And(Rg(x), sel(P, x) >= 0, Sub(sel(P, x))), Sub(x))), z3.Implies(sel(P, root) >= 0, z3.Not(Sub(sel(P, root)))))
+        if which == "exactly-the-start-node-and-its-descendants-each-once":
+            return z3.And(to_z3(n_nodes, "int") == m,
+                          z3.ForAll([k], z3.Implies(z3.And(k >= 0, k < m), Sub(mapping.get(k).z))),
+                          z3.ForAll([k, j], z3.Implies(z3.And(k >= 0, k < m, j >= 0, j < m, k != j), mapping.get(k).z != mapping.get(j).z)),
+                          z3.ForAll([x], z3.Implies(Sub(x), z3.Exists([k], z3.And(k >= 0, k < m, mapping.get(k).z == x)))))
+        if which == "start-node-is-the-new-root-without-parent":
+            return z3.And(m > 0, mapping.get(0).z == root, ndata.items["pid"].get(0).z == -1)
+        if which == "parents-precede-children-and-the-parent-relation-is-kept":
+            q = ndata.items["pid"].get(k).z
+            return z3.And(ndata.items["pid"].nz() == m, z3.ForAll([k], z3.Implies(z3.And(k > 0, k < m), z3.And(q >= 0, q < k, mapping.get(q).z == sel(P, mapping.get(k).z)))))
+        if which == "survivors-keep-every-attribute-in-fresh-storage":
+            if set(ndata.items) != set(all_cols(t)):
+                return False
+            out = []
+            for cname, src in all_cols(t).items():
+                a = ndata.items[cname]
+                if a.uid in E.entry_uids:
+                    return False
+                if cname in ("id", "pid"):
+                    continue
+                out.append(z3.And(a.nz() == m, z3.ForAll([k], z3.Implies(z3.And(k >= 0, k < m), a.get(k).z == src.get(mapping.get(k).z).z))))
+            return z3.And(ndata.items["id"].nz() == m, z3.ForAll([k], z3.Implies(z3.And(k >= 0, k < m), ndata.items["id"].get(k).z == k)), *out)
+        if which == "mapping-reported":
+            om = out_mapping
+            if om is None:
+                return True
+            if not isinstance(om, PList):
+                return False
+            A, ln = list_view(om)
+            return z3.And(ln == m, z3.ForAll([k], z3.Implies(z3.And(k >= 0, k < m), sel(A, k) == mapping.get(k).z)))
+        raise KeyError(which)
+
     def gs_post(which):
         def f(E, v, o):
-            c = topo_call(E)
-            if c is None:
-                return False
-            (new_id, new_pid), mapping = c["__result__"]
-            n_nodes, ndata, source, names = v["result"]
-            t = o["swc_like"]
-            n, m, root = nof(t), mapping.nz(), to_z3(o["n"], "int")
-            P = col(t, "pid").arr
-            k, x, j = z3.Int(fresh_name("k")), z3.Int(fresh_name("x")), z3.Int(fresh_name("j"))
-            Sub = E.ghost.get("last-traverse-Sub")
-            if which == "exactly-the-start-node-and-its-descendants-each-once":
-                if Sub is None:
-                    return False
-                return z3.And(to_z3(n_nodes, "int") == m,
-                              z3.ForAll([k], z3.Implies(z3.And(k >= 0, k < m), Sub(mapping.get(k).z))),
-                              z3.ForAll([k, j], z3.Implies(z3.And(k >= 0, k < m, j >= 0, j < m, k != j), mapping.get(k).z != mapping.get(j).z)),
-                              z3.ForAll([x], z3.Implies(Sub(x), z3.Exists([k], z3.And(k >= 0, k < m, mapping.get(k).z == x)))))
-            if which == "start-node-is-the-new-root-without-parent":
-                return z3.And(m > 0, mapping.get(0).z == root, ndata.items["pid"].get(0).z == -1)
-            if which == "parents-precede-children-and-the-parent-relation-is-kept":
-                q = ndata.items["pid"].get(k).z
-                return z3.ForAll([k], z3.Implies(z3.And(k > 0, k < m), z3.And(q >= 0, q < k, mapping.get(q).z == sel(P, mapping.get(k).z))))
-            if which == "survivors-keep-every-attribute-in-fresh-storage":
-                out = []
-                for cname, src in all_cols(t).items():
-                    if cname in ("id", "pid"):
-                        continue
-                    a = ndata.items[cname]
-                    if a.uid in E.entry_uids:
-                        return False
-                    out.append(z3.And(a.nz() == m, z3.ForAll([k], z3.Implies(z3.And(k >= 0, k < m), a.get(k).z == src.get(mapping.get(k).z).z))))
-                return z3.And(ndata.items["id"].nz() == m, z3.ForAll([k], z3.Implies(z3.And(k >= 0, k < m), ndata.items["id"].get(k).z == k)), *out)
-            raise KeyError(which)
+            return gs_clause(E, which, v["result"], o["swc_like"], o["n"], gs_ghost(E, v["result"][1]), v["out_mapping"])
 
         return f
 
-    GS_POSTS = ["exactly-the-start-node-and-its-descendants-each-once", "start-node-is-the-new-root-without-parent",
-                "parents-precede-children-and-the-parent-relation-is-kept", "survivors-keep-every-attribute-in-fresh-storage"]
-    R.add(f"{IMPL}:get_subtree_impl", prop="C06", setup=gs_setup,
+    GS_POSTS = ["descendants-are-the-start-node-and-every-node-whose-parent-is-a-descendant", "exactly-the-start-node-and-its-descendants-each-once",
+                "start-node-is-the-new-root-without-parent", "parents-precede-children-and-the-parent-relation-is-kept",
+                "survivors-keep-every-attribute-in-fresh-storage", "mapping-reported"]
+    R.add(f"{IMPL}:get_subtree_impl", prop="C06",
+          variants={"no-mapping-requested": gs_setup("none"), "mapping-into-a-list": gs_setup("list")},
+          requires=[wf_clause(w) for w in WF] + [("start-node-in-range", gs_start_in_range)],
+          returns=gs_result, modifies=["out_mapping"],
           ensures=[(nm, gs_post(nm)) for nm in GS_POSTS],
           options=dict(traverse_rule=Rule(gs_J, modifies=[("ids", "int"), "G6"], enter_kind="oref", ghost_enter=gs_ghost_enter),
                        asserts_after={"sub_ids": [("parent-entry-choice-function", gs_define_ppos)]}),
-          notes="mapping = the pre-order list of the subtree; the input is frozen")
+          notes="mapping = the pre-order list of the subtree; the input is frozen; used modularly by get_subtree / Tree.Node.subtree "
+                "(ghost outputs: mapping, the descendant predicate)")
+
+    # ------------------------------------------------------------------ get_subtree / Tree.Node.subtree: thin wrappers over get_subtree_impl
+    from contracts.C09 import node_obj
+
+    TREE = "swcgeom/core/tree.py"
+
+    def gw_setup(form, kind):
+        def f(S):
+            t = raw_tree(S)
+            out = None if kind == "none" else S.plist("int", name="out_mapping")
+            if form == "function":
+                return dict(swc_like=t, n=S.int("start"), out_mapping=out)
+            return dict(self=node_obj(S, t), out_mapping=out)
+
+        return f
+
+    gw_tree = {"function": lambda v: v["swc_like"], "method": lambda v: v["self"].fields["attach"]}
+    # the method passes `self.id` (the id column at the handle's index; ids are positions on a well-formed tree)
+    gw_start = {"function": lambda v: to_z3(v["n"], "int"), "method": lambda v: to_z3(v["self"].fields["idx"], "int")}
+
+    def gw_pre(form):
+        def f(E, v, o):
+            r = gw_start[form](v)
+            return z3.And(r >= 0, r < nof(gw_tree[form](v)))
+
+        return f
+
+    def gw_post(form, which):
+        def f(E, v, o):
+            res, t, start = v["result"], gw_tree[form](o), gw_start[form](o)
+            calls = [kw for nm, kw in E.call_log if nm == "get_subtree_impl"]
+            if len(calls) != 1 or not isinstance(res, Obj):
+                return False
+            c = calls[0]
+            m_impl, nd_impl, src_impl, names_impl = c["__result__"]
+            if which == "delegates-to-the-impl-with-this-tree-this-start-node-and-the-callers-mapping-object":
+                return z3.And(z3.BoolVal(c["swc_like"] is gw_tree[form](v) and c["out_mapping"] is v["out_mapping"]), to_z3(c["n"], "int") == start)
+            rc = all_cols(res)
+            if which == "tree-built-from-exactly-the-impls-tuple":
+                if set(rc) != set(nd_impl.items) or res.fields["source"] is not src_impl or res.fields["names"] is not names_impl:
+                    return False
+                k = z3.Int(fresh_name("k"))
+                m = to_z3(m_impl, "int")
+                return z3.And(*[z3.And(rc[cn].nz() == m, z3.ForAll([k], z3.Implies(z3.And(k >= 0, k < m), rc[cn].get(k).z == nd_impl.items[cn].get(k).z))) for cn in rc])
+            tup = (rc["id"].nz(), res.fields["ndata"], res.fields["source"], res.fields["names"])
+            if which == "result-shares-no-storage-with-the-input":
+                return all(a.uid not in E.entry_uids for a in rc.values()) and res.uid not in E.entry_uids and res.fields["ndata"].uid not in E.entry_uids
+            return gs_clause(E, which, tup, t, Sym(start, "int"), gs_ghost(E, nd_impl), v["out_mapping"])
+
+        return f
+
+    GW_POSTS = ["delegates-to-the-impl-with-this-tree-this-start-node-and-the-callers-mapping-object", "tree-built-from-exactly-the-impls-tuple"] + GS_POSTS + ["result-shares-no-storage-with-the-input"]
+    for form, key, tn in (("function", f"{TU}:get_subtree", "swc_like"), ("method", f"{TREE}:Tree.Node.subtree", None)):
+        getter = (lambda v: v["swc_like"]) if form == "function" else (lambda v: v["self"].fields["attach"])
+        R.add(key, prop="C06",
+              variants={"no-mapping-requested": gw_setup(form, "none"), "mapping-into-a-list": gw_setup(form, "list")},
+              requires=[wf_clause(w, getter) for w in WF] + [("start-node-in-range", gw_pre(form))],
+              ensures=[(nm, gw_post(form, nm)) for nm in GW_POSTS],
+              notes="thin wrapper: get_subtree_impl through its proved contract, then the Tree constructor (interpreted from source)")
 
     from pyvc.engine import Unsupported
 
